@@ -55,6 +55,7 @@ inductive Op where
   | tractPreprocess (id : Nat) (cleanQQ : Option Bool) (commit : Bool)
   | tractConfig (id : Nat) (cfg : CfgArg)
   | findTwprge (text : Str) (ns ew : Option Str) (pre ocr : Bool)
+  | fromTwprgesec (twp rge sec : TRS.Arg) (ns ew : Option Str)       -- TRS.from_twprgesec(twp, rge, sec, default_ns, default_ew)
   deriving Inhabited
 
 inductive Out where
@@ -172,6 +173,11 @@ def step (w : World) : Op → World × Out
     match Plss.findTwprge w.mc text ns ew pre ocr with
     | .error e => (w, .err e)
     | .ok l => (w, .strs l)
+  | .fromTwprgesec twp rge sec ns ew =>
+    -- missing defaults come from MasterConfig *at the time of the call*; the result is wrapped in a TRS (cache fill)
+    match TRS.constructTrs twp rge sec (ns.getD w.mc.ns) (ew.getD w.mc.ew) false with
+    | .error e => (w, .err e)
+    | .ok s => (w.fill [TRS.normIn (some s)], .dict (w.look (some s)))
 
 def run (w : World) : List Op → World × List Out
   | [] => (w, [])
